@@ -188,7 +188,7 @@ class Report(object):
             "violations": len(unmatched),
         }
         ev["coverage"].update(self.extra)
-        edir = os.path.join(VERIF, "evidence")
+        edir = os.environ.get("VERIF_EVIDENCE_DIR") or os.path.join(VERIF, "evidence")
         os.makedirs(edir, exist_ok=True)
         with open(os.path.join(edir, "%s.json" % self.prop), "w") as f:
             json.dump(ev, f, indent=1)
